@@ -45,6 +45,41 @@ def h_bzip2_fd(I, job):
     I.reach('end')
 
 
+def h_buffer(I, job):
+    ns = job['streams']; kind = job['kind']
+    cs = I.new_obj(4 * ns, 'csize', 'heap'); ps = I.new_obj(4 * ns, 'psize', 'heap'); C = []; P = []
+    for k in range(ns):
+        c = I.named('csize%d' % k, 8); p = I.named('psize%d' % k, 8)
+        I.assume(z3.And(z3.UGE(I.term(c, 8), 1), z3.ULE(I.term(c, 8), 2))); I.assume(z3.And(z3.UGE(I.term(p, 8), job.get('minp', 1)), z3.ULE(I.term(p, 8), 3)))
+        cc = I.concretize(c, 'csize'); pc = I.concretize(p, 'psize')
+        I.store(cs + 4 * k, i32, cc); I.store(ps + 4 * k, i32, pc); C.append(cc); P.append(pc)
+    total = sum(C); size = total
+    if job['truncate']:
+        tr = I.named('truncate_to', 8); I.assume(z3.ULT(I.term(tr, 8), total)); size = I.concretize(tr, 'truncate')
+        if size in [sum(C[:k]) for k in range(ns + 1)]: raise PathEnd()
+    if getattr(I, 'native', False):
+        import bz2, gzip
+        comp = bz2.compress if kind == 0 else gzip.compress
+        raw = b''.join(comp(bytes([97 + k]) * P[k]) for k in range(ns))
+        if job['truncate']: raw = raw[:max(1, len(raw) * size // total)]
+        data = I.new_obj(len(raw), 'data', 'heap'); size = len(raw)
+        for k, b in enumerate(raw): I.store(data + k, i8, b)
+    else:
+        data = I.new_obj(max(total, 1), 'data', 'heap')
+    rle = I.new_obj(5 * 16, 'rle', 'heap'); rl = I.new_obj(4, 'rlelen', 'heap'); nr = I.new_obj(4, 'nreads', 'heap')
+    rc = I.concretize(I.call('@verif_buffer_decomp', [kind, data, size, ns, cs, ps, rle, 80, rl, nr]), 'rc'); I.observe('rc', rc)
+    n = I.concretize(I.load(rl, i32), 'rlelen')
+    got = [(I.concretize(I.load(rle + 5 * k, i8), 'byte'), I.concretize(I.load(rle + 5 * k + 1, i32), 'count')) for k in range(n // 5)]
+    I.observe('rle', tuple(got))
+    if job['truncate']:
+        if rc == 0: raise Finding('truncation', 'a truncated compressed buffer is read without an error')
+        I.reach('end'); return
+    want = [(97 + k, P[k]) for k in range(ns) if P[k]]
+    if rc != 0: raise Finding('rejects-valid', 'valid multi-stream buffer rejected (rc=%d)' % rc)
+    if got != want: raise Finding('incomplete', 'the data returned by read() is not the concatenation of the payloads of all streams (got %d runs, expected %d)' % (len(got), len(want)))
+    I.reach('end')
+
+
 def gen(ns, trunc=False):
     def g(rnd):
         out = []
@@ -68,4 +103,7 @@ def harnesses(tier):
                 desc='same with read-ahead blocks of 1-3 bytes against streams of 1-%d compressed bytes (stands for files much larger than the read-ahead: stream ends fall before, at and after block borders, with and without unused bytes, EOF seen late), empty payloads included' % (3 if q else 4),
                 bounds='<= 3 streams, read-ahead 1..3, compressed size 1..%d, payload 0..2' % (3 if q else 4), wall=600),
     ]
+    for kind, nm in ((0, 'bzip2'), (1, 'gzip')):
+        hs.append(Harness('%s_buffer' % nm, 'decomp', h_buffer, jobs=[dict(kind=kind, streams=n, truncate=False) for n in (1, 2, 3)] + [dict(kind=kind, streams=2, truncate=True)], testgen=gen(1),
+                          desc='%s in-memory decompressor on 1-3 concatenated streams: everything is returned; truncated input -> error' % nm, bounds='<= 3 streams, payload 1..3 bytes; abstract model of the library in the symbolic run, the real library in the native replay'))
     return hs
